@@ -1,5 +1,6 @@
 import SSDriver.C13
 import SSDriver.C10
+import SSDriver.C04
 import SSDriver.C18
 import SSDriver.C11
 import SSDriver.C12
@@ -15,6 +16,8 @@ def dispatch (j : Json) : Except String String := do
   let p ← (← j.getObjVal? "p").getStr?
   match p with
   | "C13" => SS.Drv.C13.handle j
+  | "C04" => SS.Drv.C04.handle j
+  | "C15" => SS.Drv.C04.handle j
   | "C18" => SS.Drv.C18.handle j
   | "C19" => SS.Drv.C18.handle j
   | "C11" => SS.Drv.C11.handle j
